@@ -504,6 +504,7 @@ fn run_threads(plan: &Plan, out: &mut Outcome) -> (Vec<Vec<CallOut>>, Vec<CallOu
     out.steps = stats.steps;
     out.switches = stats.switches;
     out.schedule = stats.rle;
+    out.ext_blocks = stats.ext_blocks;
     match stats.dead {
         Some(msg) => {
             // the callers of a dead execution stay parked; the process exits soon
